@@ -3,37 +3,36 @@
 use crate::engine::{Ctx, Finding};
 use serde_json::Value;
 
-pub mod c01;
-pub mod c06;
-pub mod c08;
-pub mod c17;
-pub mod c18;
-pub mod c19;
-
-pub fn run(ctx: &Ctx) -> bool {
-    match ctx.prop.as_str() {
-        "C01" => c01::run(ctx),
-        "C06" => c06::run(ctx),
-        "C08" => c08::run(ctx),
-        "C17" => c17::run(ctx),
-        "C18" => c18::run(ctx),
-        "C19" => c19::run(ctx),
-        _ => return false,
-    }
-    true
+macro_rules! props {
+    ($(($id:literal, $m:ident)),* $(,)?) => {
+        $(pub mod $m;)*
+        pub fn run(ctx: &Ctx) -> bool {
+            match ctx.prop.as_str() {
+                $($id => $m::run(ctx),)*
+                _ => return false,
+            }
+            true
+        }
+        pub fn replay(prop: &str, case: &Value) -> Option<Vec<Finding>> {
+            Some(match prop {
+                $($id => $m::replay(case),)*
+                _ => return None,
+            })
+        }
+    };
 }
 
-pub fn replay(prop: &str, case: &Value) -> Option<Vec<Finding>> {
-    Some(match prop {
-        "C01" => c01::replay(case),
-        "C06" => c06::replay(case),
-        "C08" => c08::replay(case),
-        "C17" => c17::replay(case),
-        "C18" => c18::replay(case),
-        "C19" => c19::replay(case),
-        _ => return None,
-    })
-}
+props!(
+    ("C01", c01),
+    ("C02", c02),
+    ("C06", c06),
+    ("C08", c08),
+    ("C09", c09),
+    ("C10", c10),
+    ("C17", c17),
+    ("C18", c18),
+    ("C19", c19),
+);
 
 pub fn finding(sig: impl Into<String>, detail: impl Into<String>, case: Value) -> Finding {
     Finding { sig: sig.into(), detail: detail.into(), case }
